@@ -52,3 +52,33 @@ example :
   decide +kernel
 
 end Gbo.Props
+
+namespace Gbo.Props
+open Gbo Gbo.Spec
+
+/-- the same certificate for any tolerance ≥ 0 (floating families): the statement then speaks about the
+    points left / right of everything and the points of the cells that were checked; cells thinner than the
+    tolerance are the ones the run reports as skipped -/
+theorem C01_check_sound_tol (a b r : MPoly) (op : Op) (tol : Rat) (htol : 0 ≤ tol) (c t : Nat)
+    (h : c01Check a b r op tol = .ok c t) (q : Pt)
+    (hclear : ∀ i, i < (c01Layout a b r).atoms.size → ∀ e ∈ (c01Layout a b r).atoms[i]!, onSeg q e = false)
+    (hcell : (∀ y ∈ breakpoints (tagAll (c01Layout a b r).atoms), q.x < y)
+           ∨ (∀ y ∈ breakpoints (tagAll (c01Layout a b r).atoms), y < q.x)
+           ∨ InCheckedCell (tagAll (c01Layout a b r).atoms) tol (breakpoints (tagAll (c01Layout a b r).atoms)) q) :
+    memMP r q = opSem op (memEO a q) (memEO b q) := by
+  unfold c01Check at h
+  have hs := regionFormulaCheck_sound_tol _ _ tol htol c t h q hclear hcell
+  unfold c01Formula at hs
+  unfold c01Layout at hs
+  obtain ⟨hmatch, hext⟩ := layout_spec r #[opEdges a, opEdges b]
+  have e0 : ((layout r #[opEdges a, opEdges b]).atoms.map (fun es => memEdges es q))[0]! = memEO a q := by
+    rw [getElem!_map_of_getElem? _ q 0 (opEdges a) (hext 0 _ (by simp)), memEdges_opEdges]
+  have e1 : ((layout r #[opEdges a, opEdges b]).atoms.map (fun es => memEdges es q))[1]! = memEO b q := by
+    rw [getElem!_map_of_getElem? _ q 1 (opEdges b) (hext 1 _ (by simp)), memEdges_opEdges]
+  rw [e0, e1] at hs
+  have em : evalMP ((layout r #[opEdges a, opEdges b]).atoms.map (fun es => memEdges es q)) (layout r #[opEdges a, opEdges b]) = memMP r q :=
+    evalMP_spec _ q _ r hmatch
+  rw [em] at hs
+  simpa using hs
+
+end Gbo.Props
